@@ -853,7 +853,7 @@ func AllBlocks(b Bounds) []*Block {
 func Describe(b Bounds) string {
 	return fmt.Sprintf("programs: (d1) every function of funclib.Builtins (%d, read at run time) x arity 0..%d x every argument from the boundary pool of %d values "+
 		"(empty, blank, 0, -1, 1, 2, 3.5, -0, 1e3, 65536, MaxInt64, MinInt64, x, 'a b', NUL-list, quote, invalid UTF-8, 300 digits) plus per-position keywords (formats, colours, zones, a date, a JSON document), "+
-		"each given as a quoted constant or as a group reference {i} of the case context; full pool up to arity %d, reduced pool of %d values above it and for arities >=3 the function rejects as such; "+
+		"each given as a quoted constant or as a group reference {i} of the case context; full pool up to arity %d, reduced pool of %d values above it; an arity >= 3 that the function refuses as such (its probe {fn \"\" \"\" ..} answers ErrArgCount) gets the reduced pool, and the 4-value pool above the full arity; "+
 		"(hof) @map/@filter/@reduce (with and without initial value) over 5 arrays x sub-expressions {0},{1},{-1},{5},{key},{time live},x,'' and every function at arity 1..2 over {0},{1},{-1},{key},0,2,x; "+
 		"(for) @for over 6 starts x 10 conditions x 7 increments (non-terminating conditions only with 8 non-growing combinations); "+
 		"(d2) every function x arity 1..3 x every position holding one of %d inner calls (foldable constants, dynamic, {time live}, key, erroneous), other arguments from the reduced pool (%d values at arity 3) as constant or group; "+
